@@ -21,7 +21,7 @@ FILES = [
     "qucumber/callbacks/callback.py",
     "qucumber/nn_states/neural_state.py",
 ]
-REQUIRED_THEOREMS = ["C17_schedule_metric", "C17_schedule_observable", "C17_schedule_logger", "C17_schedule_saver", "C17_saver",
+REQUIRED_THEOREMS = ["C17_records_getattr", "C17_records_statistics_getattr", "C17_schedule_metric", "C17_schedule_observable", "C17_schedule_logger", "C17_schedule_saver", "C17_saver",
                      "C17_saver_file", "C17_records_metric_run", "C17_records_observable_run",
                      "C17_records_get_value", "C17_records_get_value_out_of_range", "C17_independent"]
 EXTRA_TRUSTED = [
@@ -31,12 +31,66 @@ EXTRA_TRUSTED = [
 ]
 RULE = ("case = (state kind, seed, callback list [two metric evaluators with different periods, observable evaluator, "
         "model saver, logger; periods 1..4, log on/off, metadata callable/dict/none, metadata_only, save_initial], "
+        "metric / observable / statistic NAMES from plain names, the evaluators' own attribute / property / method / dunder names, plural-looking and "
+        "odd strings, duplicated observable names, file names with spaces and braces; "
         "segments [(starting_epoch, epochs, optional stop injected by a user callback at a chosen event, "
         "clear_history on chosen evaluators afterwards)]); every segment is one real fit(); "
         "non-trivial iff at least one scheduled and one unscheduled epoch-end fired for some callback; distinct by hash of the case")
 
-STAT_QUERIES = ["mean", "means", "variance", "variances", "std_error", "std_errors", "num_samples", "num_sample", "foo", "s"]
-EXTRA_NAMES = ["not_tracked"]
+STAT_QUERIES = ["mean", "means", "variance", "variances", "std_error", "std_errors", "num_samples", "num_sample", "foo", "s",
+                "", "ss", "data", "datas", "bias", "bia", "biass", "meanss", "__class__", "__dict__", "__getitem__"]
+EXTRA_NAMES = ["not_tracked", "period", "epochs"]
+
+# ---------------------------------------------------------------- name spaces (round-2 dimension: adversarial names)
+# What NORMAL attribute lookup resolves on the evaluator objects (instance attributes set by __init__, properties and methods
+# of the class and of CallbackBase, the usual dunders). Python calls `__getattr__` only when normal lookup fails, so
+# `ev.<name>` for one of these names is the attribute, while `ev[name]` (a direct call of `__getattr__`) must be the
+# recorded values of a metric / observable of that name.
+_DUNDERS = ["__len__", "__getattr__", "__getitem__", "__init__", "__dict__", "__module__", "__weakref__", "__doc__"]
+_CB_METHODS = ["on_train_start", "on_train_end", "on_epoch_start", "on_epoch_end", "on_batch_start", "on_batch_end"]
+OWN = {
+    "metric": ["period", "metrics", "metric_kwargs", "past_values", "last", "verbose", "log", "csv_fields",
+               "epochs", "names", "clear_history", "get_value"] + _CB_METHODS + _DUNDERS,
+    "observable": ["period", "past_values", "system", "sampling_kwargs", "last", "verbose", "log", "csv_fields",
+                   "epochs", "names", "clear_history", "get_value"] + _CB_METHODS + _DUNDERS,
+    "stats": ["data", "__getattr__", "__getitem__", "__init__", "__dict__", "__module__", "__weakref__", "__doc__"],
+}
+OBJECT_NAMES = sorted(dir(object))
+# type of the attribute for the own names whose VALUE is not compared
+OWN_TYPE = {"metrics": "dict", "metric_kwargs": "dict", "past_values": "list", "system": "System", "sampling_kwargs": "dict",
+            "clear_history": "method", "get_value": "method", "__len__": "method", "__getattr__": "method", "__getitem__": "method",
+            "__init__": "method", "__dict__": "dict", "__module__": "str", "__weakref__": "NoneType", "__doc__": "str",
+            "__class__": "type", **{m: "method" for m in _CB_METHODS}}
+PLAIN_NAMES = ["nll", "kl", "fid", "KL", "a"]
+ODD_NAMES = ["", " ", "a b", "{}", "{0}", "{x!r}", "s", "means", "epoch ", "a,b", 'q"t', "\u00b5", "x\ny", "mean", "variance", "data"]
+
+
+def own_names(kind):
+    return sorted(set(OWN[kind]) | set(OBJECT_NAMES))
+
+
+def name_pool(kind):
+    return [n for n in OWN[kind] + ["__class__"] if n in OWN_TYPE or n in ("period", "log", "verbose", "last", "epochs", "names", "csv_fields", "data")]
+
+
+def draw_names(rng, kind, k, forbid=()):
+    """k distinct names: plain ones, names of the evaluator's own attributes / methods / dunders, odd strings"""
+    out = []
+    while len(out) < k:
+        u = rng.random()
+        n = rng.choice(PLAIN_NAMES) if u < 0.35 else rng.choice(name_pool(kind)) if u < 0.75 else rng.choice(ODD_NAMES)
+        if n not in out and n not in forbid:
+            out.append(n)
+    return out
+
+
+def obs_entry(o):
+    """an entry of cb['obs']: 'SigmaZ' (class name = observable name) or [class name, observable name]"""
+    return (o, o) if isinstance(o, str) else (o[0], o[1])
+
+
+def extra_stat_value(w, oi, ki):
+    return float(1000 * w + 17 * oi + ki) + 0.25
 EVKIND = {"on_train_start": "ts", "on_train_end": "te", "on_epoch_start": "es", "on_epoch_end": "ee",
           "on_batch_start": "bs", "on_batch_end": "be"}
 
@@ -126,18 +180,28 @@ def build_callbacks(case, rec, tmp):
                     return v
                 return fn
             metrics = {name: mk(i) for i, name in enumerate(cb["names"])}
-            b.logpath = os.path.join(tmp, f"log{ci}.csv") if cb["log"] else None
+            b.logpath = os.path.join(tmp, cb.get("logname", "log{}.csv").replace("{}", str(ci))) if cb["log"] else None
             b.obj = MetricEvaluator(cb["period"], metrics, log=b.logpath, offset=cb["offset"])
         elif cb["type"] == "observable":
             cls = {"SigmaZ": SigmaZ, "SigmaX": SigmaX}
             b.logpath = os.path.join(tmp, f"log{ci}.csv") if cb["log"] else None
-            b.obj = ObservableEvaluator(cb["period"], [cls[o]() for o in cb["obs"]], log=b.logpath,
+            observables = []
+            for o in cb["obs"]:
+                oc, on = obs_entry(o)
+                ob = cls[oc]()
+                ob.name = on
+                observables.append(ob)
+            b.obj = ObservableEvaluator(cb["period"], observables, log=b.logpath,
                                         num_samples=6, burn_in=2, steps=1)
             b.captured = {}   # world -> the dict returned by system.statistics
             orig = b.obj.system.statistics
 
-            def wrapped(nn_state, *a, _orig=orig, _b=b, **k):
+            def wrapped(nn_state, *a, _orig=orig, _b=b, _cb=cb, **k):
                 r = _orig(nn_state, *a, **k)
+                # a System may report further statistics under any key: the evaluator records whatever it is handed
+                for oi, o in enumerate(r):
+                    for ki, key in enumerate(_cb.get("extra_stats", [])):
+                        r[o][key] = extra_stat_value(rec.cur, oi, ki)
                 _b.captured[rec.cur] = r
                 _b.calls.append(rec.cur)
                 return r
@@ -153,7 +217,9 @@ def build_callbacks(case, rec, tmp):
                 if cb.get("reserved"):
                     md["rbm_am"] = 1
             b.md = md
-            b.obj = ModelSaver(cb["period"], b.folder, cb["pre"] + "{}" + cb["post"], save_initial=cb["save_initial"],
+            # pre / post are LITERAL text: braces are escaped so that `file_name.format(x)` renders them as they are
+            esc = lambda t: t.replace("{", "{{").replace("}", "}}")  # noqa: E731
+            b.obj = ModelSaver(cb["period"], b.folder, esc(cb["pre"]) + "{}" + esc(cb["post"]), save_initial=cb["save_initial"],
                                metadata=md, metadata_only=cb["metadata_only"])
         elif cb["type"] == "logger":
             b.out = []
@@ -183,34 +249,146 @@ def read_csv(path):
         return [row for row in csv.reader(f)]
 
 
+def arr_tokens(r, tok):
+    """canonical form of something that must be a numpy array of recorded values"""
+    if not isinstance(r, np.ndarray):
+        return {"not_an_array": type(r).__name__}
+    return {"ok": [tok(x) for x in r]}
+
+
+def guarded(f):
+    try:
+        return f()
+    except Exception as e:  # noqa: BLE001
+        return {"error": type(e).__name__}
+
+
+def own_value(kind, b, name, r, tok, snap):
+    """canonical form of an OWN attribute `name` whose getattr gave `r` (kind: metric | observable | stats).
+    Value attributes are rendered; for the others only the type is recorded."""
+    try:
+        if name == "period":
+            return {"own": name, "value": int(r)}
+        if name == "log":
+            return {"own": name, "value": r if r is None else os.path.basename(r)}
+        if name == "verbose":
+            return {"own": name, "value": bool(r)}
+        if name == "epochs":
+            return {"own": name, "value": [int(x) for x in r]}
+        if name == "names":
+            return {"own": name, "value": list(r)}
+        if name == "csv_fields":
+            return {"own": name, "value": list(r)}
+        if name == "last":
+            return {"own": name, "value": [[k, tok(v)] for k, v in r.items()]}
+        if name == "data" and kind == "stats":
+            return {"own": name, "value": [tok(x) for x in r]}
+    except Exception as e:  # noqa: BLE001
+        return {"own": name, "bad_value": type(e).__name__, "type": type(r).__name__}
+    return {"own": name, "type": type(r).__name__}
+
+
+def attr_view(kind, b, obj, name, tok, wrap):
+    """`getattr(obj, name)` — attribute syntax; `wrap` renders what `__getattr__` is expected to produce"""
+    def f():
+        r = getattr(obj, name)
+        if name in OWN[kind] or name in OBJECT_NAMES:
+            return own_value(kind, b, name, r, tok, None)
+        return wrap(r)
+    return guarded(f)
+
+
 def observe_eval(b, tok):
     """everything the evaluator exposes, canonicalised with `tok` (value -> token)"""
     ev = b.obj
-    names = list(ev.names)
-    q = names + EXTRA_NAMES
-    n = len(ev)
+    kind = b.spec["type"]
+    # the names to query come from the CASE (what the user passed), not from the object under test
+    tracked = list(b.spec["names"]) if kind == "metric" else list(dict.fromkeys(obs_entry(o)[1] for o in b.spec["obs"]))
+    q = tracked + [n for n in EXTRA_NAMES if n not in tracked]
+
+    def plain(f, default):
+        try:
+            return f()
+        except Exception as e:  # noqa: BLE001
+            return {"raised": type(e).__name__, "instead_of": default}
+    n = plain(lambda: len(ev), "len")
     obs = {
         "len": n,
-        "epochs": [int(x) for x in ev.epochs],
-        "names": names,
-        "last": [[k, tok(v)] for k, v in ev.last.items()],
+        "epochs": plain(lambda: [int(x) for x in ev.epochs], "epochs"),
+        "names": plain(lambda: list(ev.names), "names"),
+        "last": plain(lambda: [[k, tok(v)] for k, v in ev.last.items()], "last"),
     }
-    if b.spec["type"] == "metric":
-        obs["series"] = [[nm, pyerr(lambda nm=nm: [tok(x) for x in ev[nm]])] for nm in q]
+    if not isinstance(n, int):
+        n = 0
+    if kind == "metric":
+        wrap = lambda r: arr_tokens(r, tok)  # noqa: E731
+        obs["series"] = [[nm, guarded(lambda nm=nm: wrap(ev[nm]))] for nm in q]
     else:
-        obs["series"] = [[nm, pyerr(lambda nm=nm: [tok(x) for x in ev[nm].data])] for nm in q]
-        obs["stat_series"] = [[nm, [[sq, pyerr(lambda nm=nm, sq=sq: [tok(x) for x in ev[nm][sq]])] for sq in STAT_QUERIES]] for nm in q]
+        def wrap(r):
+            if type(r).__name__ != "ObservableStatistics":
+                return {"not_statistics": type(r).__name__}
+            return {"ok": [tok(x) for x in object.__getattribute__(r, "data")]}
+        obs["series"] = [[nm, guarded(lambda nm=nm: wrap(ev[nm]))] for nm in q]
+        stok = lambda x: obs_token_of(x)  # noqa: E731
+        obs["stat_series"] = [[nm, [[sq, guarded(lambda nm=nm, sq=sq: arr_tokens(ev[nm][sq], stok))] for sq in STAT_QUERIES]] for nm in q]
+        obs["stat_attr"] = [[nm, [[sq, guarded(lambda nm=nm, sq=sq: attr_view("stats", b, ev[nm], sq, tok, lambda r: arr_tokens(r, stok)))]
+                                  for sq in STAT_QUERIES]] for nm in q]
+    obs["attr"] = [[nm, attr_view(kind, b, ev, nm, tok, wrap)] for nm in q]
     obs["get_value"] = [[nm, [[i, pyerr(lambda nm=nm, i=i: tok(ev.get_value(nm, i)))] for i in range(-n - 2, n + 2)]] for nm in q]
     obs["get_value_default"] = [[nm, pyerr(lambda nm=nm: tok(ev.get_value(nm)))] for nm in q]
     obs["log"] = read_csv(b.logpath) if b.logpath else []
     return obs
 
 
+def obs_token_of(x):
+    return f2b(float(x))
+
+
+def expected_own(kind, b, name, msnap, extra=None):
+    """what `getattr` must give for an own attribute, built from the MODEL's snapshot and the constructor arguments"""
+    cb = b.spec
+    if name == "period":
+        return {"own": name, "value": cb["period"]}
+    if name == "log":
+        return {"own": name, "value": os.path.basename(b.logpath) if b.logpath else None}
+    if name == "verbose":
+        return {"own": name, "value": False}
+    if name == "epochs":
+        return {"own": name, "value": msnap["epochs"]}
+    if name == "names":
+        return {"own": name, "value": msnap["names"]}
+    if name == "csv_fields":
+        if kind == "metric":
+            return {"own": name, "value": ["epoch"] + msnap["names"]}
+        return {"own": name, "value": ["epoch"] + [o + "_" + st for o in msnap["names"] for st in ("mean", "variance", "std_error")]}
+    if name == "last":
+        return {"own": name, "value": msnap["last"]}
+    if name == "data" and kind == "stats":
+        return {"own": name, "value": extra}
+    return {"own": name, "type": OWN_TYPE.get(name, "?")}
+
+
+def model_attr_view(kind, b, msnap):
+    """the model's `attr` / `stat_attr` tables with the own attributes rendered as `expected_own` does"""
+    def one(k, entry, extra=None):
+        if "own" in entry:
+            return expected_own(k, b, entry["own"], msnap, extra)
+        return entry
+    attr = [[nm, one(kind, e)] for nm, e in msnap["attr"]]
+    stat_attr = None
+    if kind == "observable":
+        ser = {nm: e for nm, e in msnap["series"]}
+        stat_attr = [[nm, [[sq, one("stats", e, ser[nm].get("ok"))] for sq, e in tab]] for nm, tab in msnap["stat_attr"]]
+    return attr, stat_attr
+
+
 def model_eval_view(m, b, cellstr):
     """the model's snapshot brought to the same shape (CSV cells rendered as the strings csv would write)"""
     out = {k: m[k] for k in ("len", "epochs", "names", "last", "series", "get_value", "get_value_default")}
+    out["attr"], sa = model_attr_view(b.spec["type"], b, m)
     if b.spec["type"] == "observable":
         out["stat_series"] = m["stat_series"]
+        out["stat_attr"] = sa
     out["log"] = [[cellstr(c) for c in row] for row in m["log"]]
     return out
 
@@ -275,7 +453,12 @@ def _run_case(ctx, case, tmp):
         snaps = [observe_one(b) for b in built]
         impl_snaps.append(snaps)
         for ci in seg.get("clear", []):
-            built[ci].obj.clear_history()
+            try:
+                built[ci].obj.clear_history()
+            except Exception as e:  # noqa: BLE001  (e.g. the method shadowed by a recorded value of a metric of that name)
+                ctx.oracle("clear_history() works whatever the metrics are called", False, {**case, "callback": ci},
+                           detail={"raised": type(e).__name__, "msg": str(e)[:200]}, sig=f"{sig0}/clear_history-raises",
+                           theorem="C17_records_clear_history")
         after_clear.append([observe_one(b) if ci in seg.get("clear", []) else None for ci, b in enumerate(built)])
 
     # ---- distribution bookkeeping
@@ -288,6 +471,15 @@ def _run_case(ctx, case, tmp):
     ctx.count(f"kind={case['kind']}")
     for cb in case["cbs"]:
         ctx.count(f"{cb['type']}.period={cb['period']}")
+        if cb["type"] in ("metric", "observable"):
+            nms = cb["names"] if cb["type"] == "metric" else [obs_entry(o)[1] for o in cb["obs"]]
+            for nm in nms:
+                cls_ = "own-attribute" if nm in own_names(cb["type"]) else "odd" if nm in ODD_NAMES else "plain"
+                ctx.count(f"{cb['type']}.name_class={cls_}")
+            if len(set(nms)) < len(nms):
+                ctx.count(f"{cb['type']}.duplicate_names")
+            for k in cb.get("extra_stats", []):
+                ctx.count(f"observable.extra_statistic={k!r}")
         if cb["type"] == "saver":
             ctx.count(f"saver.metadata={cb['metadata']}{'/only' if cb['metadata_only'] else ''}")
     for seg, err in zip(case["segments"], seg_results):
@@ -311,7 +503,8 @@ def _run_case(ctx, case, tmp):
                 for w in range(nworlds):
                     r = b.captured.get(w)
                     stats.append([] if r is None else [[o, [[s, obs_token(x)] for s, x in d.items()]] for o, d in r.items()])
-                mcbs.append({"kind": "observable", "period": cb["period"], "log": cb["log"], "obs": cb["obs"], "stats": stats})
+                mcbs.append({"kind": "observable", "period": cb["period"], "log": cb["log"], "obs": [obs_entry(o)[1] for o in cb["obs"]],
+                             "stats": stats})
             elif cb["type"] == "saver":
                 mcbs.append({"kind": "saver", "period": cb["period"], "pre": cb["pre"], "post": cb["post"],
                              "save_initial": cb["save_initial"], "metadata": cb["metadata"],
@@ -319,7 +512,9 @@ def _run_case(ctx, case, tmp):
             else:
                 mcbs.append({"kind": "logger", "period": cb["period"]})
         msegs = [{"events": evs, "clear": seg.get("clear", [])} for evs, seg in zip(seg_events, case["segments"])]
-        model = ctx.driver.call("c17.run", callbacks=mcbs, segments=msegs, extra_names=EXTRA_NAMES, stat_queries=STAT_QUERIES)["segments"]
+        model = ctx.driver.call("c17.run", callbacks=mcbs, segments=msegs, extra_names=EXTRA_NAMES, stat_queries=STAT_QUERIES,
+                                own_metric=own_names("metric"), own_observable=own_names("observable"),
+                                own_stats=own_names("stats"))["segments"]
         for si, (err, snaps) in enumerate(zip(seg_results, impl_snaps)):
             c = {**case, "at_segment": si}
             mseg = model[si] if si < len(model) else {"error": "model produced no segment"}
@@ -345,8 +540,10 @@ def _run_case(ctx, case, tmp):
                     ctx.point(f"{t}.get_value", "property", isnap["get_value"], mv["get_value"], cc, exact=True, sig=f"{sig0}/{t}/get_value", theorem="C17_records_get_value, C17_records_get_value_out_of_range")
                     ctx.point(f"{t}.get_value_default", "property", isnap["get_value_default"], mv["get_value_default"], cc, exact=True, sig=f"{sig0}/{t}/get_value_default", theorem="C17_records_get_value_default")
                     ctx.point(f"{t}.log", "property", isnap["log"], mv["log"], cc, exact=True, sig=f"{sig0}/{t}/csv", theorem=th + (", C17_records_observable_csv_row" if t == "observable" else ""))
+                    ctx.point(f"{t}.attr", "property", isnap["attr"], mv["attr"], cc, exact=True, sig=f"{sig0}/{t}/attribute-syntax", theorem="C17_records_getattr")
                     if t == "observable":
                         ctx.point("observable.stat_series", "property", isnap["stat_series"], mv["stat_series"], cc, exact=True, sig=f"{sig0}/observable/statistics", theorem="C17_records_observable_statistics")
+                        ctx.point("observable.stat_attr", "property", isnap["stat_attr"], mv["stat_attr"], cc, exact=True, sig=f"{sig0}/observable/statistics-attribute-syntax", theorem="C17_records_statistics_getattr")
                 elif t == "saver":
                     names = sorted({wr["name"] for wr in msnap["writes"]})
                     ctx.point("saver.files", "property", isnap["files"], names, cc, exact=True, sig=f"{sig0}/saver/files", theorem="C17_saver")
@@ -363,7 +560,7 @@ def _run_case(ctx, case, tmp):
                 msnap = mseg["after_clear"][ci]
                 t = b.spec["type"]
                 mv = model_eval_view(msnap, b, lambda cell: "")
-                for key in ("len", "epochs", "last", "series", "get_value", "get_value_default"):
+                for key in ("len", "epochs", "last", "series", "attr", "get_value", "get_value_default"):
                     ctx.point(f"{t}.after_clear.{key}", "property", isnap[key], mv[key], {**c, "callback": ci}, exact=True,
                               sig=f"{sig0}/{t}/clear_history", theorem="C17_records_clear_history")
                 ctx.point(f"{t}.after_clear.log_rows", "property", len(isnap["log"]), len(mv["log"]), {**c, "callback": ci}, exact=True,
@@ -460,6 +657,17 @@ def oracle_checks(ctx, case, built, rec, seg_events, seg_results, impl_snaps, st
             allev += sched
             snap = impl_snaps[si][ci]
             if t in ("metric", "observable"):
+                tracked = list(cb["names"]) if t == "metric" else list(dict.fromkeys(obs_entry(o)[1] for o in cb["obs"]))
+                ctx.oracle(f"{t}: names == the names given, in order (duplicates collapse onto the first position)", snap["names"] == tracked,
+                           {**cc, "at_segment": si}, detail={"names": snap["names"], "expected": tracked}, sig=f"{sig0}/{t}/names-oracle")
+                # name spaces: subscripting ALWAYS gives the recorded values; attribute syntax gives them unless normal lookup finds
+                # an attribute of that name first
+                own = set(own_names(t))
+                att = dict((k, v) for k, v in snap["attr"])
+                ser0 = dict((k, v) for k, v in snap["series"])
+                okattr = all(("own" in att.get(nm, {})) if nm in own else (nm in att and att[nm] == ser0.get(nm)) for nm in tracked)
+                ctx.oracle(f"{t}: ev.<name> is the attribute for own names and ev[name] otherwise", okattr, {**cc, "at_segment": si},
+                           detail={"attr": {k: att[k] for k in tracked}}, sig=f"{sig0}/{t}/attribute-oracle", theorem="C17_records_getattr")
                 ok = snap["epochs"] == [e for e, _ in kept] and snap["len"] == len(kept)
                 ctx.oracle(f"{t}: epochs == multiples of p among fired epoch-ends", ok, {**cc, "at_segment": si},
                            detail={"epochs": snap["epochs"], "expected": [e for e, _ in kept]}, sig=f"{sig0}/{t}/schedule-oracle", theorem=f"C17_schedule_{t}")
@@ -468,9 +676,9 @@ def oracle_checks(ctx, case, built, rec, seg_events, seg_results, impl_snaps, st
                 ser = dict((k, v) for k, v in snap["series"])
                 okgv = True
                 for nm, tab in snap["get_value"]:
-                    if nm in EXTRA_NAMES:
+                    if nm not in tracked:
                         continue
-                    col = ser[nm].get("ok")
+                    col = ser.get(nm, {}).get("ok")
                     if col is None or len(col) != n:
                         okgv = False
                         continue
@@ -482,14 +690,14 @@ def oracle_checks(ctx, case, built, rec, seg_events, seg_results, impl_snaps, st
                 ctx.oracle(f"{t}: get_value(name, i) == series[i] (python indexing), IndexError outside", okgv, {**cc, "at_segment": si},
                            sig=f"{sig0}/{t}/get_value-oracle", theorem="C17_records_get_value")
                 try:
-                    lastok = (snap["last"] == [[nm, ser[nm]["ok"][-1]] for nm in snap["names"]]) if n else snap["last"] == []
+                    lastok = (snap["last"] == [[nm, ser[nm]["ok"][-1]] for nm in tracked]) if n else snap["last"] == []
                 except (KeyError, IndexError):
                     lastok = False
                 ctx.oracle(f"{t}: last == last record", lastok, {**cc, "at_segment": si}, detail={"last": snap["last"]},
                            sig=f"{sig0}/{t}/last-oracle", theorem="C17_records_*_run")
                 if t == "metric":
                     exp = [[nm, {"ok": [metric_value(i, w, cb["offset"]) for _, w in kept]}] for i, nm in enumerate(cb["names"])]
-                    got = [x for x in snap["series"] if x[0] not in EXTRA_NAMES]
+                    got = [x for x in snap["series"] if x[0] in tracked]
                     ctx.oracle("metric: per-name arrays == values computed at those epochs", got == exp, {**cc, "at_segment": si},
                                detail={"got": got, "expected": exp}, sig=f"{sig0}/metric/series-oracle", theorem="C17_records_getitem")
                     if cb["log"]:
@@ -497,10 +705,10 @@ def oracle_checks(ctx, case, built, rec, seg_events, seg_results, impl_snaps, st
                         ctx.oracle("metric: CSV == header + one row per evaluation", snap["log"] == rows, {**cc, "at_segment": si},
                                    detail={"got": snap["log"], "expected": rows}, sig=f"{sig0}/metric/csv-oracle", theorem="C17_records_metric_run")
                 else:
-                    names = snap["names"]
+                    names = tracked
                     if cb["log"]:
                         hdr = ["epoch"] + [f"{o}_{s}" for o in names for s in ("mean", "variance", "std_error")]
-                        rows = [hdr] + [[str(e)] + [str(b.captured[w][o][s]) for o in names for s in ("mean", "variance", "std_error")]
+                        rows = [hdr] + [[str(e)] + [str(b.captured[w].get(o, {}).get(s, "<missing>")) for o in names for s in ("mean", "variance", "std_error")]
                                         for e, w in allev if w in b.captured]
                         ctx.oracle("observable: CSV == header + mean/variance/std_error per evaluation", snap["log"] == rows, {**cc, "at_segment": si},
                                    detail={"got": snap["log"][:4], "expected": rows[:4]}, sig=f"{sig0}/observable/csv-oracle", theorem="C17_records_observable_csv_row")
@@ -558,12 +766,24 @@ def gen_case(rng, kind, p1, thorough, idx):
     """one structured case around period p1 for the first metric evaluator"""
     others = [p for p in (1, 2, 3, 4) if p != p1]
     p2 = rng.choice(others)
+    # NAMES: plain ones, names of the evaluators' own attributes / properties / methods, plural-looking and odd strings;
+    # a metric called "epoch" together with a log file is a documented TypeError (malformed stream only)
+    obs_classes = rng.choice([["SigmaZ"], ["SigmaZ", "SigmaX"], ["SigmaX", "SigmaZ", "SigmaX"]])
+    if rng.random() < 0.35:
+        obs = list(obs_classes)
+    else:
+        onames = draw_names(rng, "observable", len(obs_classes))
+        if len(onames) == 3 and rng.random() < 0.6:
+            onames[2] = onames[0]      # duplicated observable name: the later observable wins, the first position is kept
+        obs = [[c, n_] for c, n_ in zip(obs_classes, onames)]
     cbs = [
-        {"type": "metric", "period": p1, "names": ["nll", "kl"][: rng.choice([1, 2])], "log": True, "offset": rng.randrange(0, 5)},
-        {"type": "metric", "period": p2, "names": ["fid"], "log": rng.random() < 0.5, "offset": rng.randrange(0, 5)},
-        {"type": "observable", "period": rng.choice([1, 2, 3, 4]), "obs": rng.choice([["SigmaZ"], ["SigmaZ", "SigmaX"], ["SigmaX", "SigmaZ", "SigmaX"]]),
-         "log": rng.random() < 0.7},
-        {"type": "saver", "period": rng.choice([1, 2, 3, 4]), "pre": rng.choice(["m_", "ep"]), "post": rng.choice([".pt", ""]),
+        {"type": "metric", "period": p1, "names": draw_names(rng, "metric", rng.choice([1, 2, 3]), forbid=("epoch",)), "log": True,
+         "offset": rng.randrange(0, 5), "logname": rng.choice(["log{}.csv", "log {}.csv", "l{}og{{0}}.csv"])},
+        {"type": "metric", "period": p2, "names": draw_names(rng, "metric", rng.choice([1, 1, 2]), forbid=("epoch",)),
+         "log": rng.random() < 0.5, "offset": rng.randrange(0, 5)},
+        {"type": "observable", "period": rng.choice([1, 2, 3, 4]), "obs": obs, "log": rng.random() < 0.7,
+         "extra_stats": rng.choice([[], [], ["bias"], ["data", "s", "means"], ["", "bias", "data"], ["s", "mean "]])},
+        {"type": "saver", "period": rng.choice([1, 2, 3, 4]), "pre": rng.choice(["m_", "ep", "run {a} ", "{0}x"]), "post": rng.choice([".pt", "", " {}.pt"]),
          "save_initial": rng.random() < 0.6, "metadata": rng.choice(["callable", "dict", "none"]), "metadata_only": rng.random() < 0.3},
         {"type": "logger", "period": rng.choice([1, 2, 3, 4]), "default_msg": rng.random() < 0.3},
     ]
@@ -622,8 +842,21 @@ def run(ctx):
         words = ["means", "mean", "s", "", "std_errors", "num_samples", "variancess", "S"]
         got = ctx.driver.call("c17.strip", names=words)
         ctx.point("stripPlural", "aux", [w[:-1] if w.endswith("s") else w for w in words], got, {"words": words}, exact=True, sig="C17/stripPlural")
+    own_sanity(ctx)
     for case in gen_cases(ctx, ctx.tier == "thorough"):
         run_case(ctx, case)
+
+
+def own_sanity(ctx):
+    """the harness constant OWN (names resolved by normal attribute lookup) against the live objects (API drift detector)"""
+    from qucumber.callbacks import MetricEvaluator, ObservableEvaluator
+    from qucumber.callbacks.observable_evaluator import ObservableStatistics
+    from qucumber.observables import SigmaZ
+    live = {"metric": MetricEvaluator(1, {"m": lambda st: 0.0}), "observable": ObservableEvaluator(1, [SigmaZ()], num_samples=2),
+            "stats": ObservableStatistics([])}
+    for kind, obj in live.items():
+        got = sorted(set(vars(obj)) | set(dir(type(obj))))
+        ctx.point(f"own_names[{kind}]", "aux", got, own_names(kind), {"kind": kind}, exact=True, sig="C17/own-names")
 
 
 def search(ctx):
